@@ -187,6 +187,36 @@ def run(ctx: Context, rep) -> None:
     # epoch: the native iterator is finite and re-created (C15.repeat)
     from sa.rules.c02 import check_batch
     check_batch(ctx, rep, "C19.batch")
+    # the batch size is a positive integer: islice(<endless paths>, None)
+    # never returns, islice(.., 0) yields an empty batch and ends the stream
+    from sa.rules import shared as _sh19
+    conc_ = ctx.fn(C.INTERFACES[2])
+    for c_ in conc_.calls():
+        if not ctx.is_call(conc_, c_, "itertools.islice") or len(c_.args) < 2:
+            continue
+        stop = c_.args[1]
+        lb = _sh19.lower_bound(conc_, stop)
+        maybe_none = False
+        for nm in {x.id for x in ast.walk(stop) if isinstance(x, ast.Name)}:
+            if nm not in conc_.params():
+                continue
+            a_ = next((a for a in conc_.node.args.args +
+                       conc_.node.args.kwonlyargs if a.arg == nm), None)
+            ann = ast.unparse(a_.annotation) if a_ is not None and \
+                a_.annotation is not None else ""
+            dflt = conc_.param_default(nm)
+            d_lb = _sh19.lower_bound(conc_, dflt) if dflt is not None else 1
+            if "None" in ann or "Optional" in ann or d_lb is None:
+                # a bare use; `x or k` / `max(..)` around it is evaluated by
+                # lower_bound on the whole expression instead
+                if isinstance(stop, ast.Name):
+                    maybe_none = True
+        rep.ob("C19.batch", lb is not None and lb >= 1 and not maybe_none,
+               loc=conc_.loc(c_), where=conc_.qualname,
+               construct=f"islice(.., {short(stop, 40)})",
+               message="the batch size must be an integer >= 1 (lower bound "
+               f"{lb}; may be None: {maybe_none}): with None the batch of an "
+               "endless stream never completes")
     rep.rule(
         "C19.batch",
         "unshuffled periodicity: the concurrent reader's batches are plain "
@@ -233,8 +263,47 @@ def run(ctx: Context, rep) -> None:
     _helpers = _ss(ctx)[0]
     check_value_buffer(ctx, rep, "C19.end-protocol", _helpers[0])
     check_value_buffer(ctx, rep, "C19.end-protocol", _helpers[1])
-
-
+    # nothing read from the dataset's files / the environment is memoised
+    from sa.rules import shared as _shm
+    _shm.check_no_memo(ctx, rep, "C19.memo")
+    # two streams of one dataset object do not share a pool: every pool /
+    # executor / native generator managed by a `with` of an iteration
+    # interface is constructed there (a cached pool is still busy with the
+    # first repeating stream when the second one enters it)
+    rep.rule(
+        "C19.pool-fresh",
+        "in the iteration interfaces every `with` item whose value is a "
+        "LazyPool / ThreadPoolExecutor / RustGenerator is a constructor call "
+        "written in the `with` (type-resolved), not an object kept between "
+        "calls")
+    n_pf = 0
+    POOLS = ("LazyPool", "ThreadPoolExecutor", "RustGenerator",
+             "ProcessPoolExecutor", "Pool")
+    for q in C.INTERFACES:
+        f_ = ctx.fn(q)
+        for w_ in [x for x in f_.body_nodes()
+                   if isinstance(x, (ast.With, ast.AsyncWith))]:
+            for it in w_.items:
+                e_ = it.context_expr
+                t_ = ctx.res.infer(f_, e_)
+                tname = (t_.name.rsplit(".", 1)[-1].rsplit(":", 1)[-1]
+                         if t_ is not None else "")
+                is_ctor = isinstance(e_, ast.Call) and any(
+                    tg.kind == "class" or (tg.kind == "external" and (
+                        getattr(tg, "name", "") or "").rsplit(".", 1)[-1]
+                        in POOLS)
+                    for tg in ctx.res.resolve_call(f_, e_, count=False))
+                named_pool = isinstance(e_, ast.Call) and (
+                    dotted(e_.func) or "").rsplit(".", 1)[-1] in POOLS
+                if tname in POOLS or named_pool:
+                    n_pf += 1
+                    rep.ob("C19.pool-fresh", named_pool or (is_ctor and
+                                                            tname in POOLS),
+                           loc=f_.loc(e_), where=f_.qualname,
+                           construct="with " + short(e_, 60),
+                           message="the pool of a stream is created for that "
+                           "stream")
+    rep.floor("C19.pool-fresh", n_pf, 3, "pool contexts")
 
 _DI = "src/sedpack/io/dataset_iteration.py"
 SELFTESTS = [
